@@ -131,6 +131,13 @@ def correspondence(rep, rng, tier):
     q_ = gen_rsa.exact_weight_prime(rng, bits // 2, wt)
     if p_ and q_ and p_ != q_:
       lhw_keys.append((bits, wt, p_ * q_))
+  # sparse primes whose set bits start with a RUN of ones (the partial factorisation's heuristic is
+  # temporarily worse than for scattered bits: a pruned search loses exactly these, seeded C05-3)
+  for lead in (5, 8):
+    p_ = gen_rsa.leading_ones_prime(rng, 512, lead, 3)
+    q_ = gen_rsa.leading_ones_prime(rng, 512, lead, 3)
+    if p_ != q_ and max(bin(p_).count('1'), bin(q_).count('1')) <= 32:
+      lhw_keys.append((1024, max(bin(p_).count('1'), bin(q_).count('1')), p_ * q_))
   lhw_pool = mp.Pool(min(4, max(1, len(lhw_keys))))
   lhw_async = lhw_pool.map_async(_lhw_default, [k[2] for k in lhw_keys])
 
